@@ -13,7 +13,7 @@ from . import build, prng, tapeload
 from .harness import new_result, fail, bump
 
 PROP = 'C12'
-RUNS = {'quick': 700, 'thorough': 30000}
+RUNS = {'quick': 2000, 'thorough': 40000}
 BUDGET_S = {'quick': 150, 'thorough': 2400}
 CHUNK = 6
 
@@ -21,7 +21,7 @@ def init():
     tapeload.init()
 
 def gen_data(rng, n):
-    kind = rng.randrange(6)
+    kind = rng.choice((0, 1, 2, 3, 4, 4, 4, 5))
     if kind == 0:
         return {'rand': rng.getrandbits(48), 'len': n}
     if kind == 1:
@@ -30,6 +30,8 @@ def gen_data(rng, n):
         return {'runs': rng.getrandbits(48), 'len': n}
     if kind == 3:
         return {'ed': rng.getrandbits(48), 'len': n}
+    if kind == 4:
+        return {'rand': rng.getrandbits(48), 'len': n, 'tail': [rng.choice((0xED, 0xED, 0x00, 0xFF))] * rng.choice((1, 2, 3, 4, 5, 6))}
     return {'rand': rng.getrandbits(48), 'len': n}
 
 def make_data(spec):
@@ -37,7 +39,9 @@ def make_data(spec):
     if 'fill' in spec:
         return bytes([spec['fill']]) * n
     if 'rand' in spec:
-        return random.Random(spec['rand']).randbytes(n)
+        d = random.Random(spec['rand']).randbytes(n)
+        t = bytes(spec.get('tail', ()))[:max(0, n - 1)]
+        return d[:n - len(t)] + t if t else d
     rng = random.Random(spec.get('runs', spec.get('ed')))
     out = bytearray()
     while len(out) < n:
@@ -79,8 +83,8 @@ def gen(rng, tier, index):
     if kind == '48':
         n = prng.log_uniform(rng, 1, big)
         org = rng.randrange(16384, 65536 - n + 1)
-        if rng.random() < 0.3:
-            org = rng.choice((16384, 23296, 23552, 65536 - n, max(16384, 32768 - n // 2)))
+        if rng.random() < 0.5:
+            org = rng.choice((16384, 23296, 65536 - n, 65536 - n, max(16384, 32768 - n), max(16384, 49152 - n), max(16384, 32768 - n // 2)))
             org = min(org, 65536 - n)
         start = rng.choice((org, org + rng.randrange(n), rng.randrange(16384, 65536)))
         r = rng.random()
@@ -120,6 +124,10 @@ def gen(rng, tier, index):
         org = rng.randrange(clear + 1, 65536 - n + 1)
         if rng.random() < 0.3:
             org = clear + 1
+        elif rng.random() < 0.4:
+            org = max(clear + 1, rng.choice((65536, 49152, 32768)) - n)
+            if org + n > 65536:
+                org = 65536 - n
         start = rng.choice((org, org + rng.randrange(n)))
         scn.update({'data': gen_data(rng, n), 'org': org, 'start': start, 'clear': clear, 'machine': machine})
     else:
@@ -218,7 +226,11 @@ def check_delivery(scn, exp, snap, st):
     b, e = exp['begin'], exp['end']
     skip = set()
     if scn['kind'] == '48':
-        skip = set(range(scn['stack'] - 14, scn['stack']))
+        # the man page says 14 bytes; when the frame interrupt lands between EI and POP AF in SA/LD-RET the ROM's
+        # interrupt routine pushes down to STACK-18 (measured), on a real machine just as in the simulation
+        skip = set(range(scn['stack'] - 18, scn['stack']))
+        # ... and that interrupt routine (keyboard scan, frame counter) writes KSTATE/LAST-K, FLAGS and FRAMES
+        skip |= set(range(23552, 23562)) | {23611} | set(range(23672, 23675))
     if 'loader_range' in exp:
         skip |= set(range(*exp['loader_range']))
     if scn['kind'] == '128' and e > 49152:
